@@ -65,7 +65,7 @@ func (lambda *Lambda) adjoin(b []byte) []byte {
 	b = append(b, "(lambda "...)
 	b = lambda.args.adjoin(b)
 	for _, n := range lambda.children {
-		b = append(b, indent[:n.left()+1]...)
+		b = newlineIndent(b, n.left())
 		b = n.adjoin(b)
 	}
 	return append(b, ')')
